@@ -14,3 +14,30 @@ let () =
       let rows = rd_list rd_cfrow () in
       pr_list (pr_list (fun r -> pr_z r.cf_id))
         (cf_levels (fun r -> r.cf_score) cf_lkey c cd dedup nl rows))
+
+(* C03: the stand-alone rollup tool (Model/Rollup.v) *)
+let rd_rufile () =
+  let name = rd_str () in let schema = rd_z () in let rows = rd_list rd_cfrow () in
+  (name, (schema, rows))
+let () =
+  reg "c03.rollup" (fun () ->
+      let hp = rd_bool () in let ht = rd_bool () in
+      let root = rd_str () in let base = rd_str () in
+      let raw_cols = rd_list rd_str () in
+      let tf = rd_list rd_rufile () in let df = rd_list rd_rufile () in
+      pr_result (pr_list (fun (lv, (t, d)) -> pr_str lv; pr_list pr_rq t; pr_list pr_rq d))
+        (ru_rollup hp ht root base raw_cols tf df));
+  reg "c03.rollup_temp" (fun () ->
+      let hp = rd_bool () in let ht = rd_bool () in
+      let root = rd_str () in let base = rd_str () in
+      let raw_cols = rd_list rd_str () in
+      let tf = rd_list rd_rufile () in let df = rd_list rd_rufile () in
+      pr_result (pr_list (fun (lv, rows) -> pr_str lv; pr_list (fun r -> pr_z r.cf_id) rows))
+        (ru_temp hp ht root base raw_cols tf df));
+  reg "c03.rollup_levels" (fun () ->
+      let parents = rd_list (rd_pair rd_str rd_str) () in let base = rd_str () in
+      pr_result (pr_list pr_str) (ru_compute_levels parents base));
+  reg "c03.rollup_consts" (fun () ->
+      pr_list (fun (a, b) -> pr_str a; pr_str b) ru_default_parents;
+      pr_list (fun (a, b) -> pr_str a; pr_str b) ru_column_map);
+  reg "c03.rollup_std_name" (fun () -> let n = rd_str () in pr_str (ru_std_name n))
